@@ -664,10 +664,53 @@ def m_call_closure(px, st, fr, ev):
         args = []
     else:
         return None
+    if isinstance(f, tuple) and f and f[0] == "fn" and f[1] in px.facts.bodies and \
+            not px.inline({"res_path": f[1], "path": f[1], "res_local": True}, len(st.frames)):
+        # a crate-local fn item that the analysis keeps as a unit of its own (e.g. a comparator handed to a generic helper as
+        # `impl Fn`): the same uninterpreted call a direct call of it would be - event and result term alike
+        cargs, snap = [], []
+        for a in args:
+            if isinstance(a, tuple) and a and a[0] == "ref":
+                sn = px._read(st, a[1], a[2])
+                snap.append(sn)
+                cargs.append(("&", sn))
+            elif isinstance(a, tuple) and a and a[0] == "refconst":
+                snap.append(a[1])
+                cargs.append(("&", a[1]))
+            else:
+                snap.append(None)
+                cargs.append(a)
+        ev["callee"] = dict(ev["callee"], res_path=f[1], path=f[1], res_local=True, res_full=f[2] or f[1], full=f[2] or f[1], via="Fn::call")
+        ev["names"] = set(ev["names"]) | {f[1]}
+        ev["args"] = list(args)
+        ev["snap"] = snap
+        ev["argops"] = [{} for _ in args]
+        r = ("call", f[1], tuple(cargs), ev["uid"])
+        if ev["dest"]["ty"].get("k") == "bool":
+            px.mark_bool(r)
+        return val(r)
     frag = _inl(px, f, args, None, ev)
     if frag is None:
         return None
     return [frag]
+
+
+def _havoc_captures(px, s, f, fn, header, sig):
+    """a summarised iteration may run its closure any number of times: every place the closure captured by `&mut` is
+    loop-carried - havocked at the (virtual) loop head, entry value recorded, exactly like the places a real loop writes"""
+    if not (is_agg(f) and f[1] == "closure"):
+        return
+    lev = s.extra.setdefault("loop_entry_values", {})
+    for _name, v in f[4]:
+        if isinstance(v, tuple) and v and v[0] == "ref" and len(v) > 3 and v[3]:
+            root, path = v[1], v[2]
+            old = px._read(s, root, path)
+            key = px._place_key(root, path)
+            nv = ("loopvar", fn, header, key, 0) + ((sig,) if sig else ())
+            lev[(fn, header, key)] = old
+            if sig:
+                lev[(fn, header, key, sig)] = old
+            px._write(s, root, path, nv)
 
 
 @model("std::iter::Iterator::fold", reason="fold(init, f): summarised like a loop - the accumulator after any number of items is a "
@@ -699,6 +742,7 @@ def m_fold(px, st, fr, ev):
         # the iterator is consumed by the fold
         if isinstance(it, tuple) and it and it[0] == "ref" and it[3]:
             px._write(s, it[1], it[2], ("havoc", ("call", "std::iter::Iterator::fold", (("&", px._read(s, it[1], it[2])),), ev["uid"]), 0))
+        _havoc_captures(px, s, f, info.name, header, sig)
         px.emit(s, {"k": "loop_enter", "fn": info.name, "bb": header, "sig": sig})
     return [
         {"label": "fold-exit", "value": acc, "do": do},
@@ -740,6 +784,7 @@ def m_try_fold(px, st, fr, ev):
         lev[(info.name, header, ("I", 0, ()))] = itv
         if isinstance(it, tuple) and it and it[0] == "ref" and it[3]:
             px._write(s, it[1], it[2], ("havoc", ("call", "std::iter::Iterator::try_fold", (("&", itv),), ev["uid"]), 0))
+        _havoc_captures(px, s, f, info.name, header, sig)
         px.emit(s, {"k": "loop_enter", "fn": info.name, "bb": header, "sig": sig})
     return [
         {"label": "fold-exit", "value": mk(acc), "do": do},
@@ -748,7 +793,45 @@ def m_try_fold(px, st, fr, ev):
     ]
 
 
-TRY_FOLD = {"std::iter::Iterator::try_fold": m_try_fold}
+def m_try_for_each(px, st, fr, ev):
+    """Iterator::try_for_each(f): try_fold without an accumulator - the state the turns share is what the closure captured by
+    `&mut` (havocked at the virtual loop head)"""
+    if len(ev["args"]) != 2:
+        return None
+    it, f = ev["args"]
+    body = closure_body(f)
+    if body is None or body not in px.facts.bodies:
+        return None
+    rty = ev["dest"]["ty"].get("s", "")
+    if rty.startswith("std::option::Option<"):
+        good, bad, mk = "Some", "None", some
+    elif rty.startswith("std::result::Result<"):
+        good, bad, mk = "Ok", "Err", ok
+    elif rty.startswith("std::ops::ControlFlow<"):
+        good, bad, mk = "Continue", "Break", (lambda v: agg("adt", "std::ops::ControlFlow", "Continue", (("0", v),)))
+    else:
+        return None
+    info = fr.info
+    header = ("fold", fr.bb)
+    sig = px.chain_sig(st)
+    item = ("fold_item", info.name, fr.bb, sig)
+    itv = px._read(st, it[1], it[2]) if isinstance(it, tuple) and it and it[0] == "ref" else it
+
+    def do(s):
+        lev = s.extra.setdefault("loop_entry_values", {})
+        lev[(info.name, header, ("I", 0, ()))] = itv
+        if isinstance(it, tuple) and it and it[0] == "ref" and it[3]:
+            px._write(s, it[1], it[2], ("havoc", ("call", "std::iter::Iterator::try_for_each", (("&", itv),), ev["uid"]), 0))
+        _havoc_captures(px, s, f, info.name, header, sig)
+        px.emit(s, {"k": "loop_enter", "fn": info.name, "bb": header, "sig": sig})
+    return [
+        {"label": "fold-exit", "value": mk(UNIT), "do": do},
+        {"label": "fold-step", "inline": body, "args": call_args(f, [item]), "end_as": (info.name, header),
+         "end_try": (good, bad), "do": do},
+    ]
+
+
+TRY_FOLD = {"std::iter::Iterator::try_fold": m_try_fold, "std::iter::Iterator::try_for_each": m_try_for_each}
 
 
 @model("core::num::<impl u64>::checked_mul", "core::num::<impl usize>::checked_mul", "core::num::<impl u32>::checked_mul",
@@ -1037,9 +1120,22 @@ def m_eq(px, st, fr, ev):
         if isinstance(lit, tuple) and lit[0] in ("str", "bytes") and lit[1] == "" and isinstance(u, tuple):
             # s == "" is s.is_empty()
             return val(st.cons.lookup(zero_length_cond(len_term(u))))
-    t = ("eq", x, y)
+    t = _eq_canon(x, y)
     px.mark_bool(t)
     return val(st.cons.lookup(t))
+
+
+def _eq_canon(x, y):
+    """`==` through references compares the pointees: against a named constant, `*r == C` and `r == C` (with r a reference,
+    via `impl PartialEq<T> for &T`) are the same test - one term for both"""
+    for _ in range(3):
+        if isinstance(y, tuple) and y and y[0] == "named" and isinstance(x, tuple) and x and x[0] == "deref":
+            x = x[1]
+        elif isinstance(x, tuple) and x and x[0] == "named" and isinstance(y, tuple) and y and y[0] == "deref":
+            y = y[1]
+        else:
+            break
+    return ("eq", x, y)
 
 
 @model("std::cmp::PartialEq::ne", reason="!= is the negation of ==")
@@ -1052,7 +1148,7 @@ def m_ne(px, st, fr, ev):
     y = seq_of(px, st, b)
     if TY.get(x) is not None or TY.get(y) is not None:
         return val(st.cons.lookup(mk_binop("Ne", x, y)))
-    t = ("eq", x, y)
+    t = _eq_canon(x, y)
     px.mark_bool(t)
     r = st.cons.lookup(t)
     if is_const(r):
@@ -1459,6 +1555,22 @@ def m_freeze(px, st, fr, ev):
 @model("http::HeaderValue::from_maybe_shared_unchecked", reason="header value made of exactly the given bytes")
 def m_hv_unchecked(px, st, fr, ev):
     return val(("hv", ev["args"][0]))
+
+
+def _m_hv_from_int(px, st, fr, ev):
+    """HeaderValue::from(uN): the decimal digits of the number - the same value `write!(buf, "{}", n)` into a buffer with room
+    for every uN produces (http's impl formats with itoa into a BytesMut it sizes itself; it cannot fail)"""
+    ity = ev["callee"].get("res_path", "").split("From<")[-1].split(">")[0]
+    digits = {"u16": 5, "u32": 10, "u64": 20, "usize": 20}.get(ity)
+    if digits is None:
+        return None
+    buf = ("appended", ("newbuf", "BytesMut", const(digits), ev["uid"]), ("fmt", ("fmtargs", "\xc0\x00", (("fmtarg", "display", ity, ev["args"][0]),))))
+    return val(("hv", ("frozen", buf)))
+
+
+for _ity in ("u16", "u32", "u64", "usize"):
+    model("<http::HeaderValue as std::convert::From<%s>>::from" % _ity,
+          reason="HeaderValue::from(integer): its decimal text")(_m_hv_from_int)
 
 
 @model("http::HeaderValue::from_static", reason="header value made of the literal")
